@@ -94,6 +94,15 @@ def gen_cases(tier, seed):
                         s['trigger'] = 'event'
                         s['plan'] = {'cancel': {'at': k, 'phase': phase, 'how': how, 'from': 'main'}}
                     cases.append(with_subs(s, rng, size_ok=False))
+    # a size supplied in on_queued (including 0, the size of an empty object) suppresses the size-discovery request
+    for kind, extra in gen.KINDS:
+        if kind not in ('download', 'copy'):
+            continue
+        for size in (0, 1, 15, 16, 20):
+            for rep in range(1 if quick else 3):
+                t = dict({'kind': kind, 'size': size, 'subs': [{'provide_size': size}, {}]}, **extra)
+                cases.append({'seed': rng.randrange(1 << 30), 'min_part': 8, 'transfers': [t],
+                              'config': dict(multipart_threshold=16, multipart_chunksize=8, io_chunksize=4, max_request_concurrency=2)})
     # cancel before start
     for kind, extra in gen.KINDS:
         t0 = {'kind': 'upload', 'src': 'path', 'size': 5}
